@@ -1,0 +1,46 @@
+//go:build verif
+
+package store
+
+import (
+	"context"
+	"database/sql"
+
+	"go.uber.org/zap"
+
+	"github.com/zilliztech/milvus-cdc/core/log"
+)
+
+// NewMySQLMetaStoreFromDBForVerif wires a MySQLMetaStore (and its replicate store) around an already opened
+// *sql.DB instead of sql.Open("mysql", dsn); every SQL statement under test stays in the untouched methods.
+func NewMySQLMetaStoreFromDBForVerif(ctx context.Context, db *sql.DB, rootPath string) (*MySQLMetaStore, error) {
+	s := &MySQLMetaStore{db: db}
+	s.log = log.With(zap.String("meta_store", "mysql")).Logger
+	txnMap := make(map[any]func() *sql.Tx)
+	var err error
+	s.taskInfoStore, err = NewTaskInfoMysqlStore(ctx, db, rootPath, txnMap)
+	if err != nil {
+		return nil, err
+	}
+	s.taskCollectionPositionStore, err = NewTaskCollectionPositionMysqlStore(ctx, db, rootPath, txnMap)
+	if err != nil {
+		return nil, err
+	}
+	s.txnMap = txnMap
+	rs := &MySQLReplicateStore{db: db, rootPath: rootPath}
+	rs.log = log.With(zap.String("meta_store", "mysql")).Logger
+	// same DDL as NewMySQLReplicateStore
+	_, err = db.ExecContext(ctx, `
+		CREATE TABLE IF NOT EXISTS task_msg (
+			task_msg_key VARCHAR(255) NOT NULL,
+			task_msg_value JSON NOT NULL,
+			PRIMARY KEY (task_msg_key),
+			INDEX idx_key (task_msg_key)
+		)
+	`)
+	if err != nil {
+		return nil, err
+	}
+	s.replicateStore = rs
+	return s, nil
+}
